@@ -335,6 +335,11 @@ func checkImage1(rep *Report, dir string, o optSet, ops []Op, c *commitRec, img 
 		rep.count("recover→same")
 	case got == c.pre:
 		rep.count("recover→last-acknowledged")
+		if prefix == len(c.io) {
+			// every I/O call of the commit was issued and Commit has returned nil: the commit is
+			// acknowledged, a crash now may lose nothing of it (durability)
+			viol("acknowledged-commit-lost", "the commit had been acknowledged (all its I/O calls completed), yet recovery presents the state before it: its last writes were never synced")
+		}
 	case got == c.post:
 		rep.count("recover→in-flight")
 		if !metaPersisted {
